@@ -77,21 +77,14 @@ def _types(ctx, *names, exclude=()):
     return [t for t in allt if t.name not in exclude]
 
 
-def rule_checks_field(ctx, rep):
-    rule = "T-PRED"
-    rep.rule(rule, "dangerous-value predicate of each path-reporting detector: truth table over the context atoms it reads equals "
-                   "'the dangerous value is excluded'")
-    dets = path_detectors(ctx)
+def _pred_tables(ctx):
     const = ctx.spec("avm_fields.json")["constants"]
     K, MAXU, N = const["MAX_TRANSACTION_COST"], const["MAX_UINT64"], const["MAX_GROUP_SIZE"]
-    want_names = {"rekey-to", "can-close-account", "can-close-asset", "missing-fee-check", "is-updatable", "is-deletable",
-                  "unprotected-updatable", "unprotected-deletable", "group-size-check"}
-    rep.require(want_names <= set(dets), f"path-reporting detectors not found: {sorted(want_names - set(dets))}")
 
     def tt(present, label):
         return _types(ctx, exclude=() if present else (label,))
 
-    tables = {
+    return {
         "rekey-to": [({"rekeyto": a}, not a) for a in (True, False)],
         "can-close-account": [({"closeto": a, "transaction_types": tt(p, "Pay")}, not (a and p)) for a, p in itertools.product((True, False), repeat=2)],
         "can-close-asset": [({"assetcloseto": a, "transaction_types": tt(p, "Axfer")}, not (a and p)) for a, p in itertools.product((True, False), repeat=2)],
@@ -103,6 +96,20 @@ def rule_checks_field(ctx, rep):
         "group-size-check": [({"is_gtxn_context": g, "group_sizes": s}, (not g) and N not in s)
                              for g, s in itertools.product((True, False), ([], [1], [N], list(range(1, N + 1)), list(range(1, N))))],
     }
+
+
+def rule_checks_field(ctx, rep):
+    rule = "T-PRED"
+    rep.rule(rule, "dangerous-value predicate of each path-reporting detector: truth table over the context atoms it reads equals "
+                   "'the dangerous value is excluded'")
+    dets = path_detectors(ctx)
+    const = ctx.spec("avm_fields.json")["constants"]
+    K, MAXU, N = const["MAX_TRANSACTION_COST"], const["MAX_UINT64"], const["MAX_GROUP_SIZE"]
+    want_names = {"rekey-to", "can-close-account", "can-close-asset", "missing-fee-check", "is-updatable", "is-deletable",
+                  "unprotected-updatable", "unprotected-deletable", "group-size-check"}
+    rep.require(want_names <= set(dets), f"path-reporting detectors not found: {sorted(want_names - set(dets))}")
+
+    tables = _pred_tables(ctx)
     for name in sorted(want_names):
         d = dets[name]
         f = FuncV(d["mod"], d["pred"], closure=None)
@@ -948,3 +955,105 @@ def rule_absolute_index_access(ctx, rep):
     rep.require(rc is not None, "group-size-check passes no report condition")
     has_any = any(isinstance(n, ast.For) for n in ast.walk(rc)) and any(isinstance(n, ast.Return) and isinstance(n.value, ast.Constant) and n.value.value is True for n in ast.walk(rc))
     rep.check(has_any, rule, "report condition quantifies over the blocks of the path", f"{ctx.path(d['mod'].name)}:{rc.lineno}", ast.unparse(rc)[:120], "for block in path: if uses absolute index: return True")
+
+
+HELPERS = ("detect_missing_tx_field_validations_group", "detect_missing_tx_field_validations_group_complete", "detect_missing_tx_field_validations")
+
+
+def _captured_closures(ctx, d, output_group):
+    """run the detector's detect() with the path-search helpers replaced by probes; returns the (helper, args) the detector hands over"""
+    w = ctx.world
+    mod = d["mod"]
+    got = []
+    saved = {}
+    for h in HELPERS:
+        if h in mod.imports or h in mod.defs:
+            try:
+                saved[h] = mod.lookup(h)
+            except (KeyError, Unsupported):
+                continue
+
+            def probe(*args, _h=h, **kw):
+                got.append((_h, list(args), dict(kw)))
+                return []
+            mod.values[h] = ("host", probe)
+    try:
+        TL = w.cls("tealer.tealer", "Tealer")
+        tl = Obj(TL, _output_group=output_group)
+        tl.fields["output_group"] = output_group
+        det = Obj(d["cls"], tealer=tl)
+        w.call(w.method(det, "detect"))
+    finally:
+        for h, v in saved.items():
+            mod.values[h] = v
+    return got
+
+
+def rule_history(ctx, rep):
+    rule = "T-HISTORY"
+    rep.rule(rule, "the predicate and the report condition a path-reporting detector hands to the path search, taken from an abstract run of "
+                   "detect() itself (closures included), are functions of their argument alone: evaluating them on contexts / paths of two "
+                   "contracts in either order, repeatedly, or alone gives the same verdict per argument - blocks of different contracts share "
+                   "ids, so nothing may be remembered by id")
+    w = ctx.world
+    from ..absobj import Graph
+    dets = path_detectors(ctx)
+    n = 0
+    for name in sorted(dets):
+        d = dets[name]
+        where = f"{ctx.path(d['mod'].name)}:{d['detect'].lineno}"
+        for og in (False, True):
+            try:
+                calls = _captured_closures(ctx, d, og)
+            except PyRaise as e:
+                rep.violation(rule, f"{name}: detect() with output_group={og}", where, f"RAISES {e.exc} {e.where}", "a call of the path search")
+                continue
+            rep.check(len(calls) == 1, rule, f"{name}: detect() with output_group={og} calls the path search once", where, [c[0] for c in calls], "one call")
+            if len(calls) != 1:
+                continue
+            helper, args, kw = calls[0]
+            funcs = [a for a in args if isinstance(a, FuncV)] + [v for v in kw.values() if isinstance(v, FuncV)]
+            rep.check(len(funcs) >= 1, rule, f"{name}: hands a predicate to {helper}", where, len(funcs), ">= 1")
+            if not funcs:
+                continue
+            pred = funcs[0]
+            # contexts with different verdicts: take them from the detector's own truth table
+            table = _pred_tables(ctx)[name] if name in _pred_tables(ctx) else []
+            pos = [a for a, v in table if v]
+            neg = [a for a, v in table if not v]
+            if pos and neg:
+                ca, cb = _mk_ctx(ctx, **pos[0]), _mk_ctx(ctx, **neg[0])
+                orders = {"A,B": [ca, cb], "B,A": [cb, ca], "A,A,B,B": [ca, ca, cb, cb], "B,B,A": [cb, cb, ca]}
+                for oname, seq in orders.items():
+                    # a fresh activation per order: what one order remembers cannot hide in the next
+                    helper2, args2, kw2 = _captured_closures(ctx, d, og)[0]
+                    p2 = [a for a in args2 if isinstance(a, FuncV)][0]
+                    try:
+                        got = [(("A" if c is ca else "B"), w.call(p2, c)) for c in seq]
+                    except PyRaise as e:
+                        got = f"RAISES {e.exc} {e.where}"
+                    want = [(("A" if c is ca else "B"), c is ca) for c in seq]
+                    n += 1
+                    rep.check(got == want, rule, f"{name} (output_group={og}): predicate on contexts in order {oname}", where, got, want,
+                              why="the verdict for a context depends on which contexts were asked before")
+            if len(funcs) >= 2:
+                g1, g2 = Graph(ctx), Graph(ctx)
+                # two contracts: their first blocks share id 0; only the second contract reads another transaction by absolute index
+                a0 = g1.block("A0", ["txn Amount", "pop"])
+                a1 = g1.block("A1", ["int 1", "return"])
+                b0 = g2.block("B0", ["gtxn 0 Amount", "pop"])
+                b1 = g2.block("B1", ["int 1", "return"])
+                pa, pb = [a0, a1], [b0, b1]
+                for oname, seq in {"A,B": [pa, pb], "B,A": [pb, pa], "A,A,B": [pa, pa, pb], "B,B,A,B": [pb, pb, pa, pb]}.items():
+                    helper2, args2, kw2 = _captured_closures(ctx, d, og)[0]
+                    rc2 = [a for a in args2 if isinstance(a, FuncV)][1]
+                    try:
+                        got = [(("A" if q is pa else "B"), w.call(rc2, q)) for q in seq]
+                    except PyRaise as e:
+                        got = f"RAISES {e.exc} {e.where}"
+                    want = [(("A" if q is pa else "B"), q is pb) for q in seq]
+                    n += 1
+                    rep.check(got == want, rule, f"{name} (output_group={og}): report condition on paths of two contracts in order {oname}", where, got, want,
+                              why="the report condition of a path depends on paths of another contract seen before (blocks of different contracts share ids)")
+    rep.count("history rows", n)
+    rep.require(n >= 40, f"T-HISTORY evaluated only {n} rows")
